@@ -193,9 +193,11 @@ def _check_gcb(case):
     nch = 2
     arr = rec.values(sum(sizes), nch, np.int16)
     with env.scratch() as d:
-        paths = rec.write_flat(d, arr, sizes, order=['asc', 'desc', 'num'][(sum(sizes) + cs) % 3])
+        offset = [0, 4, 6, 0][(sum(sizes) + 2 * cs) % 4]     # header bytes in front of every file
+        paths = rec.write_flat(d, arr, sizes, offset=offset,
+                               order=['asc', 'desc', 'num'][(sum(sizes) + cs) % 3])
         r = must_return('get_ephys_reader', get_ephys_reader, paths, n_channels=nch,
-                        dtype=np.int16, sample_rate=rec.rate_for_chunk(cs))
+                        dtype=np.int16, offset=offset, sample_rate=rec.rate_for_chunk(cs))
         try:
             _bounds_predicates(r.chunk_bounds, sizes, cs, 'reader-chunk_bounds')
             require([int(x) for x in r.part_bounds] == [0] + np.cumsum(sizes).tolist(),
@@ -204,6 +206,20 @@ def _check_gcb(case):
         finally:
             for m in getattr(r, '_mmaps', []):
                 m._mmap.close()
+        if (sum(sizes) + cs) % 5 == 0:
+            # the recording is written again at the same paths with other lengths, then re-opened
+            sizes2 = [s_ + 1 + k for k, s_ in enumerate(sizes)]
+            arr2 = rec.values(sum(sizes2), nch, np.int16, 3)
+            paths2 = rec.write_flat(d, arr2, sizes2, offset=offset,
+                                    order=['asc', 'desc', 'num'][(sum(sizes) + cs) % 3])
+            r2 = must_return('get_ephys_reader', get_ephys_reader, paths2, n_channels=nch,
+                             dtype=np.int16, offset=offset, sample_rate=rec.rate_for_chunk(cs))
+            try:
+                _bounds_predicates(r2.chunk_bounds, sizes2, cs, 'reopened-chunk_bounds')
+                _iter_predicates(r2, sum(sizes2), 'reopened-iter_chunks')
+            finally:
+                for m in getattr(r2, '_mmaps', []):
+                    m._mmap.close()
     return b
 
 
